@@ -58,6 +58,9 @@ pub fn parse_with(wire: &[u8], sizes: Vec<usize>, peer: std::net::SocketAddr) ->
 
 /// plans for a wire message: whole, byte-wise, single splits (all if short, else biased sample), random multi-splits
 pub fn plans_for(wire: &[u8], seed: u64) -> Vec<Plan> {
+    if let Some(p) = plan_override() {
+        return p;
+    }
     let mut plans = vec![Plan::Whole, Plan::ByteWise];
     let n = wire.len();
     if n <= 300 {
